@@ -517,6 +517,10 @@ func (c *compiler) compile(tok *token) []instruction {
 		c.FuncName = tmp
 
 	case "=":
+		if !independentTargets(tok.Tokens[0].Tokens) {
+			res = append(res, c.assignInOrder(tok)...)
+			break
+		}
 		res = append(res, c.compile(tok.Tokens[1])...)
 		for i := 1; i <= len(tok.Tokens[0].Tokens); i++ {
 			arg := tok.Tokens[0].Tokens[len(tok.Tokens[0].Tokens)-i]
@@ -961,6 +965,82 @@ func (c *compiler) compile(tok *token) []instruction {
 		}
 		res[n].Pos = newPos(c.Globals, tok.Pos.Filename, c.FuncName, tok.Pos.Line, tok.Pos.Column)
 	}
+	return res
+}
+
+// independentTargets reports whether the targets of an assignment can be stored in any order: a single target, or
+// distinct plain names (an index or field target has operands of its own, and may name the same place as another)
+func independentTargets(targets []*token) bool {
+	if len(targets) < 2 {
+		return true
+	}
+	seen := map[string]bool{}
+	for _, arg := range targets {
+		if arg.Symbol == "index" || arg.Symbol == "." {
+			return false
+		}
+		if arg.Text != "_" && seen[arg.Text] {
+			return false
+		}
+		seen[arg.Text] = true
+	}
+	return true
+}
+
+// assignInOrder compiles a, b[i], c.f = x, y, z the way Go specifies it: first the operands of the index and field
+// targets, left to right, then the values, then the assignments, left to right. Operands and values wait in hidden
+// locals.
+func (c *compiler) assignInOrder(tok *token) []instruction {
+	const indexItem, indexKey = 0, 1
+	var res []instruction
+	targets := tok.Tokens[0].Tokens
+	c.Begin()
+	hidden := 0
+	keep := func() reg {
+		hidden++
+		slot := reg(c.Locals.Index(fmt.Sprintf("%v#%d", tok.Pos, hidden)))
+		res = append(res, instruction{Code: codeLocalSet, A: slot, B: 1})
+		return slot
+	}
+	items, keys, values := make([]reg, len(targets)), make([]reg, len(targets)), make([]reg, len(targets))
+	for i, arg := range targets {
+		if arg.Symbol == "index" || arg.Symbol == "." {
+			res = append(res, c.compile(arg.Tokens[indexItem])...)
+			items[i] = keep()
+		}
+		if arg.Symbol == "index" {
+			res = append(res, c.compile(arg.Tokens[indexKey])...)
+			keys[i] = keep()
+		}
+	}
+	res = append(res, c.compile(tok.Tokens[1])...)
+	for i := len(targets) - 1; i >= 0; i-- {
+		values[i] = keep()
+	}
+	for i, arg := range targets {
+		if arg.Text == "_" && arg.Symbol != "index" && arg.Symbol != "." {
+			continue
+		}
+		res = append(res, instruction{Code: codeLocalGet, A: values[i]})
+		if arg.Symbol == "index" {
+			res = append(res, instruction{Code: codeLocalGet, A: items[i]}, instruction{Code: codeLocalGet, A: keys[i]}, instruction{Code: codeSet})
+		} else if arg.Symbol == "." {
+			res = append(res, instruction{Code: codeLocalGet, A: items[i]})
+			res = append(res, instruction{Code: codeSetAttr, A: reg(c.Globals.Index(arg.Tokens[indexKey].Text))})
+		} else {
+			code := codeGlobalSet
+			lookup := c.Globals
+			key := arg.Text
+			if c.Locals.Exists(key) {
+				code = codeLocalSet
+				lookup = c.Locals
+			} else {
+				key = c.expPrefix(key)
+			}
+			res = append(res, instruction{Code: code, A: reg(lookup.Index(key))})
+		}
+	}
+	c.End()
 	return res
 }
 
